@@ -5,6 +5,7 @@ import XsdataModel.Backends.Writer
 import XsdataModel.Backends.Serializers
 import XsdataModel.Backends.Sources
 import XsdataModel.Backends.LxmlText
+import XsdataModel.Backends.UnionAttrs
 open Lean Proto Py Xs.Bind Xs.Backends OpsBind
 
 namespace OpsBackends
@@ -63,6 +64,19 @@ partial def dCNode (j : Json) : Except String CNode :=
 
 def run (op : String) (a : Json) : Option (Except String Json) :=
   match op with
+  | "c08.union_record" => some do
+      -- UnionNode.child / bind(level > 0) fed by the lxml handler's loop (live attrib views, clear at the end)
+      let toks ← dList (fun j => match j with
+        | .arr #[.str "start", i, q, _] => do pure (UTok.start (← dNat i) (← dStr q))
+        | .arr #[.str "end", i, q] => do pure (UTok.end (← dNat i) (← dStr q))
+        | _ => .error "bad union token") (field a "toks")
+      let store ← dList (fun j => match j with
+        | .arr #[.str "start", i, _, ats] => do pure (some ((← dNat i), (← dList (dPair dStr dStr) ats)))
+        | _ => pure none) (field a "toks")
+      let s0 : AStore := store.filterMap id
+      pure (ok (jList (fun (r : URec) => match r with
+        | .start q ats => Json.arr #[Json.str "start", jStr q, jPairs ats]
+        | .end q => Json.arr #[Json.str "end", jStr q]) (unionRecord s0 toks)))
   | "c08.lxml_text" => some do
       -- get_text / get_tail on every element of the tree libxml2 builds for the document
       let items ← dList dCNode (field a "items")
